@@ -5,8 +5,29 @@
 
 package webrtc
 
+import "github.com/pion/ice/v4"
+
 // VerifFlushCandidates exposes flushCandidates (the candidate-pool flush
 // SetLocalDescription performs) to the verification harness (property C24).
 func (g *ICEGatherer) VerifFlushCandidates() {
 	g.flushCandidates()
+}
+
+// VerifRestart exposes ICETransport.restart (what CreateOffer with ICERestart
+// and SetRemoteDescription with new remote credentials do: agent.Restart, then
+// the gatherer gathers again) to the verification harness (property C24).
+func (t *ICETransport) VerifRestart() error {
+	return t.restart()
+}
+
+// VerifAgentGatheringComplete reports whether the ICE agent has finished its
+// current gathering cycle (its final nil callback is queued or delivered).
+func (g *ICEGatherer) VerifAgentGatheringComplete() bool {
+	agent := g.getAgent()
+	if agent == nil {
+		return false
+	}
+	state, err := agent.GetGatheringState()
+
+	return err == nil && state == ice.GatheringStateComplete
 }
